@@ -31,8 +31,26 @@ def check(run):
         if err:
             broken.append(err)
     outcomes = {}
+    replayed_timeouts = []
     for r in mal:
         outcomes[(r.get("entry"), r.get("outcome"))] = outcomes.get((r.get("entry"), r.get("outcome")), 0) + 1
+        if r.get("outcome") == "timeout":
+            # a wall-clock timeout inside a loaded parallel run says little: replay the case alone (up to three times);
+            # it is reported only if it never completes alone either
+            import json as _json
+            again = "timeout"
+            for _ in range(3):
+                rc1, out1, _e = vlib.harness("frame", ["one", r.get("entry", "frame"), str(r.get("version")), r.get("compression", "none"), r.get("input", "")] +
+                                             ([r["header"]] if r.get("header") else []), run.seed, timeout=120)
+                try:
+                    again = _json.loads([l for l in out1.split("\n") if l.strip().startswith("{")][-1]).get("outcome", "timeout")
+                except Exception:
+                    again = "timeout"
+                if again != "timeout":
+                    break
+            replayed_timeouts.append({"id": r["id"], "origin": r.get("origin"), "alone": again})
+            if again != "timeout":
+                r = dict(r, outcome=again)
         if r.get("outcome") in ("panic", "timeout"):
             findings.append({"id": r["id"], "entry": r.get("entry"), "outcome": r.get("outcome"), "version": r.get("version"),
                              "compression": r.get("compression"), "input": r.get("input"), "origin": r.get("origin"),
@@ -137,5 +155,6 @@ def check(run):
                  "non-trivial = distinct rejected inputs")
     c["samples"] = [{"id": r["id"], "entry": r.get("entry"), "origin": r.get("origin"), "outcome": r.get("outcome")} for r in mal[:6]]
     c["outcomes"] = {"%s/%s" % k: v for k, v in sorted(outcomes.items(), key=str)}
+    c["timeouts_replayed_alone"] = replayed_timeouts[:50]
     c["observations"] = "outcome 'oom' = allocation proportional to a wire count under the harness's address-space limit (not a panic, not judged)"
     fc.verdict(run, "C04", findings, broken, "harness-frame one <entry> <version> <compression> <input hex> (or harness-seg / harness-cql with the record's input)")
